@@ -40,9 +40,20 @@ def decodeWord (w : Word) : Instr :=
     ⟨if w.b0 < 128 then some w.b0 else none, w.b1,
      if w.b2 ≥ 128 then .kernAt (256 * (w.b2 - 128) + w.b3) else .lig w.b3 (decodePost w.b2)⟩
 
+/-- An instruction the format can hold. -/
+def wordOk (i : Instr) : Bool :=
+  (match i.next with | none => true | some s => decide (s < 128)) && decide (i.right < 256) &&
+    (match i.op with
+      | .kern _ => false
+      | .kernAt idx => decide (idx < 32768)
+      | .lig c p => decide (c < 256) && decide (p < 8)
+      | .redirect u flag => decide (u < 65536) && i.next.isNone)
+
 /-- `impl Serializable for ligkern::lang::Instruction` (serialize.rs:126–172). `none`: the
-serialiser panics on an inline `Kern`. -/
+serialiser panics on an inline `Kern`, or a field does not fit its byte(s) (impossible in Rust,
+where the fields are `u8`/`u16`; the model's fields are unbounded `Nat`). -/
 def encodeWord (rb : Option Nat) (i : Instr) : Option Word :=
+  if !wordOk i then none else
   let first := (i.next.getD 128, i.right)
   match i.op with
   | .kern _ => none
@@ -64,15 +75,6 @@ def rawLb (ws : List Word) : Option Nat :=
   | some w => if w.b0 = 255 then some (256 * w.b2 + w.b3) else none
 
 def decodeRaw (ws : List Word) : Prog := ⟨ws.map decodeWord, rawLb ws, rawRb ws⟩
-
-/-- An instruction the format can hold. -/
-def wordOk (i : Instr) : Bool :=
-  (match i.next with | none => true | some s => decide (s < 128)) && decide (i.right < 256) &&
-    (match i.op with
-      | .kern _ => false
-      | .kernAt idx => decide (idx < 32768)
-      | .lig c p => decide (c < 256) && decide (p < 8)
-      | .redirect u flag => decide (u < 65536) && i.next.isNone)
 
 /-! ## Seven-bit safety (PLtoTF.2014.110–112 as implemented in pl/mod.rs:478–556) -/
 
